@@ -189,11 +189,11 @@ def wellNamed (c : Content) : Bool :=
             ++ (omKeys c.vars).map dName))
   && c.rxns.all fun kv => nodupB (omKeys kv.2.stoich)
 
-/-- the decidable hypothesis of `C07_equiv_partial`: no surrogates / data, plain variables and parameters
-    (F-C07-5 and a proof limit), numeric coefficients (proof limit), well-formed names, every variable has an
-    equation and only variables do (F-C07-3), at least one variable -/
+/-- the decidable hypothesis of `C07_equiv_partial`: no surrogates / data, plain parameters (F-C07-5; variables
+    may be initial assignments), numeric coefficients (a limit of the proof), well-formed names, every variable
+    has an equation and only variables do (F-C07-3), at least one variable -/
 def okC (c : Content) : Bool :=
-  c.surs.isEmpty && c.data.isEmpty && noIA c.vars && noIA c.pars && numCoefs c && wellNamed c
+  c.surs.isEmpty && c.data.isEmpty && noIA c.pars && numCoefs c && wellNamed c
     && allVarsHaveEq c && stoichOnVars c && !c.vars.isEmpty
 
 /-- the requested free parameters are distinct plain parameters and one value is supplied for each -/
